@@ -30,7 +30,7 @@ TOL = 1e-11
 
 def budget(tier):
     if tier == "quick":
-        return dict(max_examples=600, workers=8, time_s=170, min_cases=150)
+        return dict(max_examples=450, workers=8, time_s=170, min_cases=150)
     return dict(max_examples=20000, workers=16, time_s=1200, min_cases=300)
 
 
